@@ -66,7 +66,16 @@ func TestVerif_C09(t *testing.T) {
 			}
 			return acc, fmt.Sprintf("%s%s by child %d for submission %d of %.8s;", pre, tag, child, k, id)
 		}
-		w.cntRule = func(child int, sub string, k int) uint64 { return h64(child, sub, k) % 50 }
+		w.cntRule = func(child int, sub string, k int) uint64 {
+			x := h64(child, sub, k)
+			switch x % 9 {
+			case 0: // counts beyond the signed range
+				return 1<<63 + x%1000
+			case 1:
+				return ^uint64(0) - x%7
+			}
+			return x % 50
+		}
 		h := mocrelay.NewMergeHandler(mkChildren(w, nch)...)
 		cl := newMClient(ctx, h)
 		defer func() { cl.s.Stop(); <-cl.rdDone }()
